@@ -266,7 +266,7 @@ fn random_history(src: &mut Src, obs: &mut Obs) -> Res {
     // the history, in this process: one parsed query per text (parse once, evaluate many times); the
     // documents are copied into ONE slot that is overwritten in place, so that the same address holds
     // different content over time; every step goes through all entry points in a generated order
-    let parsed: Vec<Option<JpQuery>> = queries.iter().map(|q| guarded(|| parse_json_path(q)).ok().and_then(|r| r.ok())).collect();
+    let mut parsed: Vec<Option<JpQuery>> = queries.iter().map(|q| guarded(|| parse_json_path(q)).ok().and_then(|r| r.ok())).collect();
     let repeated = hist.len() > pairs.len();
     let mut slot: Value = Value::Null;
     for (step, (d, q)) in hist.iter().enumerate() {
@@ -302,7 +302,16 @@ fn random_history(src: &mut Src, obs: &mut Obs) -> Res {
                     }
                 }
                 _ => {
-                    via_parsed = match &parsed[*q] {
+                    // a parsed query is a value: a clone of it (taken now, after whatever it has been
+                    // through) must behave like the original, and may replace it from here on
+                    let use_clone = src.chance(1, 3);
+                    let cloned: Option<JpQuery> = if use_clone { parsed[*q].clone() } else { None };
+                    if use_clone && src.bool() {
+                        if let Some(c) = &cloned {
+                            parsed[*q] = Some(c.clone());
+                        }
+                    }
+                    via_parsed = match cloned.as_ref().or(parsed[*q].as_ref()) {
                         Some(ast) => match guarded(|| js_path_process(ast, doc)) {
                             Ok(Ok(r)) => json!(r.into_iter().map(|x| json!([x.clone().path(), x.val().to_string()])).collect::<Vec<_>>()),
                             Ok(Err(_)) => json!("Err"),
